@@ -76,7 +76,7 @@ LoadFails ==
   /\ stage = "transport" /\ ~Importable(Variant, decl)
   /\ Finish(Unimportable)
 
-\* http_transport.py:189-191
+\* http_transport.py:193-202: class by status range (ClientError / ServerError / base HTTPError)
 TransportRaise ==
   /\ stage = "transport" /\ Importable(Variant, decl)
   /\ transport = "bundled" /\ status \notin 200..299
